@@ -555,7 +555,7 @@ class Interp:
             ty, meth = '', m0.group(1)
         else:
             ty, meth = m.group(1), m.group(2)
-        cands = [f for n, f in self.fns.items() if re.search(r'(?:>|::)' + re.escape(meth) + r'$', n) and '{closure' not in n]
+        cands = [f for n, f in self.fns.items() if re.search(r'(?:^|>|::)' + re.escape(meth) + r'$', n) and '{closure' not in n]
         if len(cands) > 1:
             c2 = [f for f in cands if ty.lower() in f.name.lower()]
             cands = c2 or cands
